@@ -5,6 +5,13 @@ import os
 import pkgutil
 
 REGISTRY = {}      # "relpath::Qual.name" -> Contract
+MACROS = {}        # spec macro name -> ([params], ast of the defining expression)
+
+
+def macro(name, params, text):
+  """Defines a specification macro usable in every clause: name(params) := text."""
+  MACROS[name] = (list(params), ast.parse(" ".join(text.split()), mode="eval").body)
+
 LEMMAS = {}        # name -> Lemma
 
 
